@@ -853,3 +853,23 @@ R.contract(
     },
     replayable=False,
 )
+
+
+# ------------------------------------------------------------------------------------------------- get_headers: the headers DOCUMENTED for the definition selected for this response
+R.contract(
+    OAS + "BaseOpenAPISchema.get_headers",
+    variant="documented",
+    prop="C04",
+    args={"self": Obj("spec:OAS3WithHeaderDefinitions"), "operation": Opq("Op"), "response": Opq("R")},
+    ghost={"selected": None},
+    raises=[],
+    ensures={
+        "the_headers_of_the_selected_definition_with_its_scopes": "(result is None) if ghost('selected') is None else (result[0] is ghost('selected')[0] and "
+                                                                  "((result[1] is ghost('selected')[1]['headers']) if 'headers' in ghost('selected')[1] else (result[1] is None)))",
+    },
+    replayable=False,
+)
+R.nominal_methods["spec:OAS3WithHeaderDefinitions"] = {
+    "_get_response_definitions": lambda it, obj, a, k: it.ghost.__setitem__("selected", it.path.choose(
+        [(None, True), ((["scope"], {"description": "no headers"}), True), ((["scope", "nested"], {"headers": {"X-Rate-Limit": {"schema": {"type": "integer"}}}}), True), ((["scope"], {"headers": {}}), True)], "selected-definition"))
+    or it.ghost["selected"]}
